@@ -38,6 +38,7 @@ type Prog struct {
 	overlayJSON string
 
 	fieldPtrWriters map[string]map[*ssa.Function]bool
+	ptrWritesMemo   map[string][]ptrWrite
 	// NormaliseLog: what normalise.go rewrote before the analysis (empty on the reference tree)
 	NormaliseLog []string
 }
